@@ -50,7 +50,7 @@ MUTANTS = [
     {'name': 'decompress-unlinks-source', 'expect': 'C07-R4',
      'edits': [E(P, "        finally:\n            path.unlink()", "        finally:\n            source.unlink()")]},
     {'name': 'scan-opens-readwrite', 'expect': 'C07-R4',
-     'edits': [E('wn/lmf.py', "    with open(source, 'rb') as fh:\n        for m in lex_re.finditer(fh.read()):", "    with open(source, 'r+b') as fh:\n        for m in lex_re.finditer(fh.read()):")]},
+     'edits': [E('wn/lmf.py', "    with open(source, 'rb') as fh:\n        # tags inside of comments", "    with open(source, 'r+b') as fh:\n        # tags inside of comments")]},
     {'name': 'tar-extracted-in-place', 'expect': 'C07-R4',
      'edits': [E(P, """            with tempfile.TemporaryDirectory() as tmpdir:
                 tar.extractall(path=tmpdir)
